@@ -134,13 +134,13 @@ def well_formed(fields):
     return not st
 
 
-def run_cmd(argv):
+def run_cmd(argv, timeout=120):
     import time
     for _ in range(60):              # the shared binary is briefly absent while another check relinks it
         if os.path.exists(argv[0]) or "/" not in argv[0]:
             break
         time.sleep(5)
-    r = subprocess.run(argv, stdout=subprocess.PIPE, stderr=subprocess.PIPE, timeout=120)
+    r = subprocess.run(argv, stdout=subprocess.PIPE, stderr=subprocess.PIPE, timeout=timeout)
     return r.returncode, r.stdout.decode("latin-1"), r.stderr.decode("latin-1")
 
 
@@ -196,6 +196,83 @@ def macro_compare(ct, gt):
         if strip(ct) == strip(gt):
             return "apostrophe-escaped (stringized twice)"
     return "DIFF"
+
+
+def mx_stream(run, tmp, model, quick):
+    """three-way on closed #/##-free macro tables: non-recursive tables must agree everywhere (model = cppcheck = gcc);
+    on recursive tables a cppcheck != gcc difference is the known re-expansion finding iff the model sides with gcc"""
+    rng = run.rng
+    n = 120 if quick else 3000
+    jobs = []
+    for i in range(n):
+        rec = i % 4 == 3
+        table, uses = P.gen_mx(rng, rec)
+        jobs.append((i, rec, table, uses))
+
+    def job(j):
+        i, rec, table, uses = j
+        src = P.macro_source(P.mx_defs(table), [P.mx_render(u) for u in uses])
+        p = os.path.join(tmp, "x%d.c" % i)
+        with open(p, "w") as fh:
+            fh.write(src)
+        try:
+            rc, out, err = run_cmd([vlib.CPPCHECK, "-E", "--max-configs=1", "-q", p], timeout=20)
+            c = None if "error:" in err else P.split_uses(out, len(uses))
+        except subprocess.TimeoutExpired:
+            c = "TIMEOUT"
+        rc, out, err = run_cmd(["gcc", "-E", "-undef", "-nostdinc", "-P", "-x", "c", p])
+        g = None if rc != 0 else P.split_uses(out, len(uses))
+        os.remove(p)
+        return c, g, src
+    with concurrent.futures.ThreadPoolExecutor(max_workers=6) as ex:
+        outs = list(ex.map(job, jobs))
+    lines, idx = [], []
+    for (i, rec, table, uses), (c, g, src) in zip(jobs, outs):
+        for k, u in enumerate(uses):
+            lines.append(vlib.enc_case(P.mx_case(table, u)))
+            idx.append((i, k))
+    rcm, mo, _ = vlib.run_lines([model], lines, timeout=600)
+    mres = {}
+    for (i, k), o in zip(idx, mo):
+        d = vlib.dec_line(o)
+        mres[(i, k)] = [x.decode("latin-1") for x in d[1:]] + [";"] if d[:1] == [b"O"] else None
+    nbad, known_rec, hang = 0, None, None
+    for (i, rec, table, uses), (c, g, src) in zip(jobs, outs):
+        if c == "TIMEOUT":
+            run.count("mx", None, bucket="cppcheck -E > 20 s (%s table)" % ("recursive" if rec else "non-recursive"))
+            hang = hang or (rec, src)
+            continue
+        for k, u in enumerate(uses):
+            m = mres.get((i, k))
+            ct = c[k] if c else None
+            gt = g[k] if g else None
+            if gt is None:
+                run.count("mx", None, bucket="gcc rejects (not judged)")
+                continue
+            cls = "agree" if (m == ct == gt) else ("model=gcc!=cppcheck" if m == gt else ("model=cppcheck!=gcc" if m == ct else "all differ"))
+            run.count("mx", None, nontrivial=(src, k) if any(x[0] == "C" and x[1][0] == "F" for x in u) else None,
+                      bucket="%s, %s" % ("recursive" if rec else "non-recursive", cls))
+            if cls == "agree":
+                continue
+            one = P.macro_source(P.mx_defs(table), [P.mx_render(u)])
+            if rec and cls == "model=gcc!=cppcheck":
+                if known_rec is None or len(one) < len(known_rec[0]):
+                    known_rec = (one, ct, gt)
+                continue
+            nbad += 1
+            run.stream("mx")["disagreements"] += 1
+            if nbad <= 3:
+                run.violation("mx:" + hashlib.sha1(one.encode()).hexdigest()[:12],
+                              "macro expansion (%s table): model `%s`, cppcheck -E `%s`, gcc -E `%s`" %
+                              ("recursive" if rec else "non-recursive", " ".join(m) if m else None, " ".join(ct) if ct else "error", " ".join(gt)),
+                              {"source": one, "model": m, "cppcheck_E": ct, "gcc_E": gt}, found_input=(ct != gt))
+    if known_rec:
+        one, ct, gt = known_rec
+        run.violation("macro:recursive-table-reexpansion", "recursive macro table: cppcheck -E `%s` != gcc -E `%s` (the hide-set model sides with gcc)" %
+                      (" ".join(ct)[:300] if ct else "error", " ".join(gt)[:300]), {"source": one, "cppcheck_E": ct, "gcc_E": gt})
+    if hang:
+        run.notes.append("cppcheck -E did not finish within 20 s on a generated %s macro table" % ("recursive" if hang[0] else "non-recursive"))
+        run.extra["mx_cppcheck_timeout_source"] = hang[1][:2000]
 
 
 def macro_stream(run, tmp, quick):
@@ -429,6 +506,9 @@ def check(run, replay):
 
     # ---- stream M: macro expansion, differential only (no model): cppcheck -E vs gcc -E, token by token
     macro_stream(run, tmp, quick)
+
+    # ---- stream MX: #/##-free closed fragment, extracted expansion model vs cppcheck -E vs gcc -E
+    mx_stream(run, tmp, model, quick)
 
     # ---- stream 3: cppcheck -E and gcc -E on a sample (3-way with the model)
     n = 60 if quick else 1500
